@@ -8,8 +8,8 @@ NA = json.load(open("MANIFEST.json"))["not_applicable"]
 TECH = "deterministic simulation with fault injection: "
 CHECKS = {
  "C09": ("exploration",
-   "History machine over live HedString objects sharing one DefinitionDict: a seeded, shrinkable sequence of expand / shrink / copy / validate / render / sort / remove_definitions / column-wise variants is executed on the real objects and in lock-step on an immutable reference tree; after every step every live object (not only the one operated on) is compared with its model tree, unordered and case-folded; Def-expand validation is judged against the model in every expansion state; every 8th run checks the dictionary's acceptance rules. Seeded sampling of histories and worlds: evidence, not proof.",
-   "Trusted: CPython, the independent text splitter and reference tree model, bundled schema 8.3.0; sibling order and letter case are not compared; shrink is modelled as blind (as documented).",
+   "History machine over live HedString objects sharing one DefinitionDict: a seeded, shrinkable sequence of expand / shrink / copy / validate / render / sort / remove_definitions / column-wise variants is executed on the real objects and in lock-step on an immutable reference tree; after every step every live object (not only the one operated on) is compared with its model tree, unordered and case-folded, plus a case-exact comparison of the placeholder values that exist in two letter cases; Def-expand validation is judged against the model in every expansion state; every 8th run checks the dictionary's acceptance rules. Seeded sampling of histories and worlds: evidence, not proof.",
+   "Trusted: CPython, the independent text splitter and reference tree model, bundled schema 8.3.0; sibling order and letter case (except that of case-variant placeholder values) are not compared; shrink is modelled as blind (as documented).",
    TECH + "seeded operation-history search with lock-step reference model (axis: call history on shared mutable objects)", "DESIGN.md 3.4, 4/C09"),
  "C18": ("fault_enumeration",
    "Every CLI invocation / API call of the real BackupManager, run_remodel_backup, run_remodel_restore and run_remodel runs as a simulated process over an interposed file system on a generated data tree. Crash sub-batch: every distinct crash state of one backup creation is enumerated per scenario (kill before each mutating file-system step, after the last, and a torn variant of chunk writes; EIO/ENOSPC variants in thorough mode) and a fresh manager must refuse / not list / list complete. History sub-batch: seeded sequences of backup, modify (incl. size-preserving edits with scenario-controlled file times), delete, add, remodel (twice, with edits between; runs killed at a seeded step), restore[tasks] (also killed), API-level dispatch from one or two backups in one process, reopen - on trees with decomposed-unicode and ancestor-like directory names, given directly or through a symbolic link - judged step by step against a {name: {path: bytes}} reference model (restore exactness, confinement, idempotence, isolation, no-overwrite). Scenarios are sampled; the crash dimension inside each scenario is complete up to chunk sampling in long copies.",
